@@ -387,6 +387,7 @@ def normalise_swap(raw):
             defs[t["dest"]["l"]] = (bi, None, None)
     argc = raw["arg_count"]
     changed = False
+    new_locals = None
     new_blocks = [dict(b, stmts=list(b["stmts"])) for b in blocks]
     for bi, b in enumerate(new_blocks):
         t = b["term"]
@@ -413,12 +414,21 @@ def normalise_swap(raw):
             if L is None:
                 continue
             dl = defs.get(L)
-            if L <= argc or ndefs[L] != 1 or not dl or dl[2] is None or dl[2]["k"] != "use":
+            if L <= argc or ndefs[L] != 1 or not dl or dl[2] is None:
                 continue
-            init_op = dl[2]["op"]
-            # rewrite: L = replace(other, init_op); drop the initialisation of L
             nb = new_blocks[dl[0]]
-            nb["stmts"][dl[1]] = {"k": "nop"}
+            if dl[2]["k"] == "use":
+                init_op = dl[2]["op"]
+                # rewrite: L = replace(other, init_op); drop the initialisation of L
+                nb["stmts"][dl[1]] = {"k": "nop"}
+            else:
+                # initialised by an rvalue that is not a plain operand (`let mut old = State::Recv;`): the initial value moves to a
+                # fresh temporary, which becomes the replace's second argument
+                new_locals = list(new_locals) if new_locals is not None else list(raw["locals"])
+                tl = len(new_locals)
+                new_locals.append(dict(raw["locals"][L], name=None, user=False))
+                nb["stmts"][dl[1]] = dict(nb["stmts"][dl[1]], place={"l": tl, "proj": []})
+                init_op = {"k": "move", "place": {"l": tl, "proj": []}}
             b["term"] = dict(t, callee="std::mem::replace", resolved="std::mem::replace", args=[t["args"][1 - ai], init_op], dest={"l": L, "proj": []},
                              extra=dict(t.get("extra") or {}, full="std::mem::replace"))
             changed = True
@@ -427,6 +437,8 @@ def normalise_swap(raw):
         return raw
     out = dict(raw)
     out["blocks"] = new_blocks
+    if new_locals is not None:
+        out["locals"] = new_locals
     return out
 
 
